@@ -876,6 +876,7 @@ func checkT5(c *Ctx, jr *joinRoles) {
 						_, path, okp := p.Sym(call.Call.Args[0]).FieldPath()
 						okTicker = okp && path[len(path)-1] == "interruptInterval"
 						c.R.Check(okTicker, "T5", joinKey(jr, fn, "ticker"), p.InstrPos(call), "ticker period = interruptInterval", "ticker period is "+p.Sym(call.Call.Args[0]).String()+", not the computed interruptInterval: the timeout is examined too rarely")
+						c.R.Check(!blockInLoop(call.Block()), "T5", joinKey(jr, fn, "ticker-once"), p.InstrPos(call), "one ticker for the whole loop", "a new ticker is created on every iteration: each arriving element restarts the tick phase, so under a trickle faster than the interval no tick ever fires and the buffer is never flushed")
 					}
 				}
 			}
